@@ -3,6 +3,14 @@
 import json, subprocess
 
 CHECKS = {
+ "C06": dict(level="exploration", design="§4 C06",
+   technique="runtime monitoring: differential execution against native SQLite in the same connection (statement outcome classes and result sets)",
+   text="Random single-writer programs are executed statement by statement on the s3db table and on a native WITHOUT ROWID table with the same untyped columns inside the same connection and transaction; the monitor compares every outcome class and every result set (key predicates, ORDER BY asc/desc, LIMIT, aggregates), across branch factors 2..4096, cache on/off, the hook-free built-in bucket, drop/re-create and second-connection re-opens. Exploration: programs are sampled, not enumerated.",
+   note="Trusts native SQLite as the reference; untyped columns; numerically equal INT/REAL keys and '' are left to C07/C08; cache-on multi-level cases are covered by known finding D19."),
+ "C07": dict(level="exploration", design="§4 C07",
+   technique="runtime monitoring: Key.Order and table behaviour compared with SQLite's own comparison of bound values; order axioms on triples; process liveness per case",
+   text="Boundary-heavy and random key pairs/triples of all four storage classes: sign of Key.Order vs SQLite's '<,=,>' on the bound values, antisymmetry/transitivity/equality axioms, ORDER BY and point lookups on trees of entries_per_node 2..16 vs a native table, and SQLite-equal pairs (INT n/REAL n.0, +-0) inserted in both orders into trees of varying depth (second insert must be a constraint failure, no twin, no crash). Worker death or hang during a case is a violation.",
+   note="Trusts SQLite's comparison as the reference order; NaN not generated (SQLite binds it as NULL); cross-writer twins (two writers inserting INT n and REAL n.0 concurrently) are not generated."),
  "C16": dict(level="exploration", design="§4 C16",
    technique="runtime monitoring: independent offline decoder over the bucket after every commit + online immutability assertion in the instrumented store + cache-less re-read",
    text="Random write-heavy histories on the real extension (1-3 writers, all branch factors, transactions, rollbacks, merges); after every acknowledged commit the monitors decode the committed version from the bucket with an independent protobuf/JSON reader (links, order, size, height), compare it and a cache-less read-only handle's scan with the writer's own scan, assert name->bytes immutability online and count PUTs of no-op commits. Exploration is the right level: the property quantifies over histories, which can only be sampled.",
